@@ -3,11 +3,16 @@
 Correspondence, three routes:
   * hook level: calamine::verif_hooks::xlsx::replace_cell_names on rendered token lists
     (vh sharedfmla tok …) vs the extracted Coq model (vm sharedfmla tok …), which also returns
-    the Coq spec (render of the translated tokens), the known class, in_range and wf;
+    the Coq spec (render of the translated tokens), the clipped form (references that would leave
+    the sheet stay), the known class, in_range and wf;
   * raw text: arbitrary (not grammar-shaped) strings through rcn, plus the A1 helpers;
-  * end to end: generated .xlsx files with column / row / block groups read through
-    Xlsx::worksheet_formula (vh sharedfmla sheet -> the generic `open` command) vs the model
-    of next_formula + worksheet_formula (vm sharedfmla sheet).
+  * end to end: generated .xlsx files with column / row / block groups at random master
+    positions, masters in arbitrary si order, read through Xlsx::worksheet_formula
+    (vh sharedfmla sheet -> the generic `open` command) vs the model of next_formula +
+    worksheet_formula (vm sharedfmla sheet).
+The model is parameterised by the oracle is_alnum (Rust's char::is_alphanumeric): its values on
+the non-ASCII characters of the generators are asked from the harness once per run
+(`sharedfmla alnum`) and handed to the model side with every case.
 Verdicts: impl != model -> disagreement; impl != spec outside every known class -> violation;
 inside a known class -> known hit (only when the real code really deviates)."""
 import os, shutil
@@ -15,28 +20,51 @@ import vlib
 import sharedfmlagen as G
 
 ASSUMPTIONS = [
-    "formula text is taken over the token grammar of SharedFmla.v (whole-column/row references, R1C1 and structured references are outside it)",
-    "the harness is built with overflow checks: u32/i64 overflow is a panic (a release build wraps instead)",
+    "formula text is taken over the token grammar of SharedFmla.v (R1C1 references are outside it; structured references only as balanced bracket groups)",
+    "char::is_alphanumeric is an oracle of the model: the proofs constrain it on ASCII only; the check instantiates it from the Rust standard library itself for the non-ASCII characters it generates",
+    "the harness is built with overflow checks: i64 overflow in offset_cell_name would be a panic (unreachable for offsets between cells of a sheet: proved)",
     "cells carry an explicit r attribute; the XML layer (quick-xml events, unescape) is exercised end to end but not modelled",
     "Col26.v / Col26_proofs.v are agent c14's (A1 text <-> coordinates)",
 ]
-CLASS_NAMES = {"1": "F22-mixed", "2": "F22-lookalike", "3": "F22-nonascii", "4": "F22-quote",
-               "5": "F22-overflow"}
-STREAMS = [None, None, None, None, None, None, "mixed", "lookalike", "nonascii", "quote", "overflow"]
+CLASS_NAMES = {"8": "F22-whole-range", "9": "F22-sheet3d"}
+STREAMS = [None, None, None, None, None, None, None, "whole", "sheet3d", "illegal"]
+ORACLE = {"arg": "", "set": set()}
 
 def tmpdir(ctx):
     d = os.path.join(vlib.CACHE, "tmp", "c15-%d" % os.getpid())
     os.makedirs(d, exist_ok=True)
     return d
 
+def load_oracle(ctx):
+    """char::is_alphanumeric on the non-ASCII characters of the generators, and a check of the
+    ASCII part against the definition the proofs assume"""
+    cps = list(range(128)) + [ord(ch) for ch in G.nonascii_chars()]
+    line = "al\tsharedfmla\talnum\t%s" % ",".join(str(c) for c in cps)
+    bits = ctx.run_impl([line]).get("al") or ""
+    if len(bits) != len(cps):
+        ctx.disagreements.append({"function": "alnum oracle", "case": line, "impl": bits, "model": None})
+        return
+    for c, b in zip(cps, bits):
+        if c < 128:
+            want = chr(c).isascii() and chr(c).isalnum()
+            if (b == "1") != want:
+                ctx.disagreements.append({"function": "alnum oracle (ASCII)", "case": "%d" % c, "impl": b,
+                                          "model": "1" if want else "0"})
+        elif b == "1":
+            ORACLE["set"].add(c)
+    ORACLE["arg"] = ",".join(str(c) for c in sorted(ORACLE["set"]))
+    ctx.count("oracle:nonascii-chars", len(cps) - 128)
+    ctx.count("oracle:nonascii-alnum", len(ORACLE["set"]))
+
 # ----------------------------------------------------------------------------- hook level
 def gen_offset(rng, ts, edge=False):
     """an offset that mostly keeps every relative reference on the sheet"""
-    refs = [t for t in ts if t[0] == "R"]
-    lo_r = -min([t[4] for t in refs if not t[3]] or [5])
-    hi_r = G.MAX_ROWS - 1 - max([t[4] for t in refs if not t[3]] or [0])
-    lo_c = -min([t[2] for t in refs if not t[1]] or [5])
-    hi_c = G.MAX_COLS - 1 - max([t[2] for t in refs if not t[1]] or [0])
+    rows = [t[4] for t in ts if t[0] == "R" and not t[3]] + \
+           [x for t in ts if t[0] == "W" for (a, x) in ((t[1], t[2]), (t[3], t[4])) if not a]
+    cols = [t[2] for t in ts if t[0] == "R" and not t[1]] + \
+           [x for t in ts if t[0] == "C" for (a, x) in ((t[1], t[2]), (t[3], t[4])) if not a]
+    lo_r = -min(rows or [5]); hi_r = G.MAX_ROWS - 1 - max(rows or [0])
+    lo_c = -min(cols or [5]); hi_c = G.MAX_COLS - 1 - max(cols or [0])
     def pick(lo, hi):
         x = rng.random()
         if x < 0.15:
@@ -48,65 +76,105 @@ def gen_offset(rng, ts, edge=False):
         return rng.randrange(lo, hi + 1)
     shape = rng.random()
     dr, dc = pick(lo_r, hi_r), pick(lo_c, hi_c)
-    if shape < 0.45:
+    if shape < 0.35:
         dc = 0
-    elif shape < 0.75:
+    elif shape < 0.65:
         dr = 0
     if edge:
         which = rng.randrange(4)
-        if which == 0: dr = lo_r - rng.choice([1, 2, 1000])
-        elif which == 1: dr = hi_r + rng.choice([1, 2, 1000])
-        elif which == 2: dc = lo_c - rng.choice([1, 2, 100])
-        else: dc = hi_c + rng.choice([1, 2, 100])
+        if which == 0: dr = max(lo_r - rng.choice([1, 1, 2, 1000]), -G.MAX_ROWS + 1)
+        elif which == 1: dr = min(hi_r + rng.choice([1, 1, 2, 1000]), G.MAX_ROWS - 1)
+        elif which == 2: dc = max(lo_c - rng.choice([1, 1, 2, 100]), -G.MAX_COLS + 1)
+        else: dc = min(hi_c + rng.choice([1, 1, 2, 100]), G.MAX_COLS - 1)
     return dr, dc
 
 def classify_tok(ctx, lid, line, ts, dr, dc, impl, model):
     """returns a dict describing the case: ok / known / violation / disagreement"""
     f = (model or "").split("|")
-    if impl is None or model is None or len(f) != 7:
+    if impl is None or model is None or len(f) != 8:
         ctx.disagreements.append({"function": "replace_cell_names", "case": line, "impl": impl, "model": model})
         return None
-    m_ans, m_spec, known, known_v, inr, wf, rok = f
+    m_ans, m_spec, m_clip, known, known_at, inr, wf, rok = f
     my_spec = G.hx(G.render_all(G.translate(ts, dr, dc)))
-    if rok != "1" or my_spec != m_spec:
+    my_clip = G.hx(G.render_all(G.translate_clip(ts, dr, dc)))
+    if rok != "1" or my_spec != m_spec or my_clip != m_clip or (inr == "1") != G.in_range(ts, dr, dc):
         ctx.disagreements.append({"function": "render/translate (generator vs Coq spec)", "case": line,
-                                  "impl": my_spec, "model": model})
+                                  "impl": my_spec + "|" + my_clip, "model": model})
         return None
     if impl != m_ans:
         # the tie is broken; still decide below whether the property itself fails on this input
         ctx.disagreements.append({"function": "replace_cell_names", "case": line, "impl": impl, "model": m_ans})
-    info = {"impl": impl, "expected": "ok:" + m_spec, "known": known, "inr": inr, "wf": wf, "cls": None}
+    info = {"impl": impl, "expected": "ok:" + m_spec, "known": known_at, "inr": inr, "wf": wf, "cls": None}
     if wf != "1":
         ctx.count("tok:not-wf")
         return info
+    sheet_off = -G.MAX_ROWS < dr < G.MAX_ROWS and -G.MAX_COLS < dc < G.MAX_COLS
     if inr != "1":
         ctx.count("tok:out-of-range")
-        if impl == "panic":
-            ctx.known_hits.setdefault("F22-edge", line)
-            info["cls"] = "F22-edge"
-        elif impl != info["expected"]:
-            info["cls"] = "F22-edge"
+        # the property does not say what a reference that leaves the sheet becomes; the code
+        # documents "left unchanged" (theorem C15_translate_total): anything else — a panic, an
+        # error, an invalid name — on an offset between two cells of a sheet is reported
+        if impl == "ok:" + m_clip:
+            ctx.count("tok:edge-left-unchanged")
+        elif known_at == "9":
+            name = CLASS_NAMES[known_at]      # the first sheet name of a 3-D prefix moved, as inside the domain
+            ctx.known_hits.setdefault(name, line)
+            ctx.count("known:" + name)
+            info["cls"] = name
+        elif sheet_off:
+            ctx.violations.append({"case": line, "expected": "ok:" + m_clip, "actual": impl, "model": m_ans,
+                                   "what": "replace_cell_names(%r, (%d,%d)): a reference that would leave the sheet must stay unchanged (%r)"
+                                           % (G.render_all(ts), dr, dc, G.render_all(G.translate_clip(ts, dr, dc)))})
+            info["cls"] = "violation"
+        else:
+            ctx.count("tok:offset-beyond-any-sheet")
         return info
     ctx.count("tok:in-range")
     if impl == info["expected"]:
         ctx.count("tok:translated-as-specified")
         return info
     # the real code deviates from the property on a grammatical, in-range formula
-    kn = known_v if dc == 0 else known
-    if kn == "-":
+    if known_at == "-":
         ctx.violations.append({"case": line, "expected": info["expected"], "actual": impl, "model": m_ans,
                                "what": "replace_cell_names(%r, (%d,%d)) differs from the translated formula %r"
                                        % (G.render_all(ts), dr, dc, G.render_all(G.translate(ts, dr, dc)))})
         info["cls"] = "violation"
     else:
-        name = CLASS_NAMES.get(kn, "F22-class" + kn)
+        name = CLASS_NAMES.get(known_at, "F22-class" + known_at)
         ctx.known_hits.setdefault(name, line)
         ctx.count("known:" + name)
         info["cls"] = name
     return info
 
 def tok_line(lid, ts, dr, dc):
-    return "%s\tsharedfmla\ttok\t%s\t%d\t%d\t%s" % (lid, G.wire_tokens(ts), dr, dc, G.hx(G.render_all(ts)))
+    return "%s\tsharedfmla\ttok\t%s\t%d\t%d\t%s\t%s" % (lid, G.wire_tokens(ts), dr, dc, G.hx(G.render_all(ts)),
+                                                        ORACLE["arg"])
+
+def features(ctx, ts):
+    for t in ts:
+        k = t[0]
+        if k == "R":
+            ctx.count("feat:ref-%s" % ("rel", "row-abs", "col-abs", "abs")[2 * t[1] + t[3]])
+            if t[2] in (0, G.MAX_COLS - 1) or t[4] in (0, G.MAX_ROWS - 1):
+                ctx.count("feat:ref-at-sheet-edge")
+        elif k == "F" and any(ch.isdigit() for ch in t[1]):
+            ctx.count("feat:function-name-with-digits")
+        elif k == "S":
+            ctx.count("feat:sheet-%s%s" % ("quoted" if t[1] else "plain", "-nonascii" if not t[2].isascii() else ""))
+            if G.is_cell_name(t[2]):
+                ctx.count("feat:sheet-named-like-a-cell")
+        elif k == "Q" and not t[1].isascii():
+            ctx.count("feat:string-nonascii")
+        elif k == "Q" and '"' in t[1]:
+            ctx.count("feat:string-doubled-quote")
+        elif k == "N" and not t[1].isascii():
+            ctx.count("feat:name-nonascii")
+        elif k == "B":
+            ctx.count("feat:bracketed")
+        elif k == "M" and t[3] is not None and t[3][0] is None:
+            ctx.count("feat:number-1E5-style")
+        elif k in ("C", "W", "T"):
+            ctx.count("feat:" + {"C": "whole-columns", "W": "whole-rows", "T": "sheet-3d"}[k])
 
 def run_tok_batch(ctx, n, tag):
     rng = ctx.rng
@@ -114,9 +182,9 @@ def run_tok_batch(ctx, n, tag):
     for k in range(n):
         stream = rng.choice(STREAMS)
         base = (rng.choice([0, 0, 3, 50, 1000, G.MAX_ROWS - 14]), rng.choice([0, 0, 2, 30, 700, G.MAX_COLS - 14]))
-        g = G.FormulaGen(rng, base=base, stream=stream, mixed_ok=False)
+        g = G.FormulaGen(rng, base=base, stream=stream)
         ts = g.formula()
-        edge = rng.random() < 0.06
+        edge = rng.random() < 0.08
         dr, dc = gen_offset(rng, ts, edge)
         lid = "%s%d" % (tag, k)
         cases.append((lid, ts, dr, dc, stream))
@@ -128,30 +196,43 @@ def run_tok_batch(ctx, n, tag):
         ctx.count("stream:%s" % (stream or "known-free"))
         ctx.count("shape:%s" % ("vertical" if dc == 0 and dr != 0 else "horizontal" if dr == 0 and dc != 0
                                 else "none" if dr == 0 and dc == 0 else "diagonal"))
+        features(ctx, ts)
         if info and any(t[0] == "R" and not (t[1] and t[3]) for t in ts) and (dr or dc):
             ctx.nontrivial(line.split("\t", 2)[2])
         if len(ctx.samples) < 4 and info:
             ctx.sample({"formula": G.render_all(ts), "offset": [dr, dc], "impl": impl.get(lid),
                         "class": info["cls"]})
 
-# the witnesses of the Coq refutation lemmas and other fixed cases (kept alive on every run)
+# the witnesses of the Coq lemmas and other fixed cases (kept alive on every run)
 def witness_cases():
     R = lambda ca, c, ra, r: ("R", ca, c, ra, r)
     Y = lambda s: ("Y", s)
     A1 = R(0, 0, 0, 0)
     return [
-        ([R(1, 0, 0, 0)], 0, 1), ([R(0, 0, 1, 0)], 0, 1), ([R(1, 0, 0, 0)], 3, 0), ([R(0, 0, 1, 0)], 3, 0),
-        ([("F", "LOG10"), A1, Y(")")], 1, 0), ([("S", 1, "Q1"), A1], 1, 0),
+        # the former classes: now translated as specified
+        ([R(1, 0, 0, 0), Y("+"), R(0, 0, 1, 0)], 0, 1), ([R(1, 0, 0, 0)], 3, 0), ([R(0, 0, 1, 0)], 3, 2),
+        ([("F", "LOG10"), A1, Y(")")], 1, 0), ([("S", 1, "Q1"), A1], 1, 0), ([("S", 0, "Q1"), A1], 1, 0),
         ([("F", "SUMX2MY2"), A1, Y(":"), R(0, 0, 0, 2), Y(","), R(0, 1, 0, 0), Y(":"), R(0, 1, 0, 2), Y(")")], 1, 0),
         ([("F", "ATAN2"), A1, Y(","), R(0, 16383, 0, 0), Y(")")], 0, -16000),
-        ([("Q", "é"), Y("&"), A1], 1, 0), ([("S", 1, "Données"), A1], 1, 0), ([("Q", "Ł1")], 0, 0),
-        ([("S", 1, 'a"b'), A1, Y("+"), R(0, 1, 0, 1)], 1, 0),
+        ([("Q", "é"), Y("&"), A1], 1, 0), ([("S", 1, "Données"), A1], 1, 0), ([("S", 0, "Données"), A1], 1, 0),
+        ([("Q", "Ł1")], 0, 0), ([("S", 1, 'a"b'), A1, Y("+"), R(0, 1, 0, 1)], 1, 0),
         ([("S", 0, "Revenue2024"), A1], 1, 0), ([A1, Y("*"), ("M", "1000000000", None, None)], 1, 0),
-        ([A1, Y("*"), ("M", "999999999", None, None)], 1, 0),
+        ([("M", "1", None, (None, "5")), Y("+"), A1], 1, 1), ([("N", "my_A1"), Y("+"), A1], 1, 1),
+        ([("N", "Table1"), ("B", "[[#This Row],[Col A1]]"), Y("+"), A1], 1, 1),
+        ([("B", "[1]"), ("S", 0, "Sheet1"), A1], 1, 1), ([("N", "税A1"), Y("*"), A1], 2, 0),
+        # the sheet edges: left unchanged
         ([A1], -1, 0), ([A1], 0, -1), ([R(0, 16383, 0, 0)], 0, 1), ([R(0, 0, 0, 1048575)], 1, 0),
         ([R(1, 16383, 1, 1048575)], 5, 5), ([R(0, 16383, 0, 1048575)], -1048575, -16383),
+        ([R(0, 16382, 0, 1048574)], 1, 1), ([R(0, 1, 0, 1)], -1, -1), ([R(1, 0, 0, 0)], -1, -1),
         ([("S", 0, "Sheet1"), A1], 1048575, 16383), ([("N", "TRUE")], 1, 1), ([("E", 1), Y("+"), ("E", 6)], 1, 1),
+        ([("E", 4), Y("+"), ("E", 0)], 1, 1),
         ([("M", "1", "5", (True, "3")), Y("*"), A1], 2, 2), ([("Q", 'A1 "x" B2'), Y("&"), A1], 2, 2),
+        # the remaining known classes
+        ([("F", "SUM"), ("C", 0, 0, 0, 0), Y(")")], 0, 1), ([("F", "SUM"), ("W", 0, 0, 0, 2), Y(")")], 2, 0),
+        ([("F", "SUM"), ("C", 0, 0, 0, 0), Y(")")], 3, 0), ([("F", "SUM"), ("C", 1, 0, 1, 1), Y(")")], 3, 3),
+        ([("T", "Q1", "Q3"), A1], 1, 0), ([("T", "Sheet1", "Sheet3"), A1], 1, 0),
+        # outside the grammar (names that are cell names): correspondence only
+        ([("N", "tax1")], 1, 0), ([("N", "Tbl1"), ("B", "[Col]")], 1, 0),
     ]
 
 def run_witnesses(ctx):
@@ -167,17 +248,25 @@ def run_witnesses(ctx):
         ctx.nontrivial(line.split("\t", 2)[2])
 
 # ----------------------------------------------------------------------------- raw text and helpers
-ALPH = list("AZaz09$:!'\"(), +-*&.#_") + ["é", "Ł", "日", "ǃ", "Ƃ", "😀"]
+ALPH = list("AZaz09$:!'\"(), +-*&.#_[]?\\") + G.RAW_EXTRA
 def run_raw_batch(ctx, n, tag):
     rng = ctx.rng
     lines = []
     for k in range(n):
         x = rng.random()
         if x < 0.6:
-            s = "".join(rng.choice(ALPH) for _ in range(rng.randrange(0, 14)))
+            if rng.random() < 0.5:
+                s = "".join(rng.choice(ALPH) for _ in range(rng.randrange(0, 14)))
+            else:
+                # cell-shaped words glued to arbitrary neighbours
+                s = ""
+                for _ in range(rng.randrange(1, 4)):
+                    s += rng.choice(["", "$"]) + "".join(rng.choice("AXFDZaq") for _ in range(rng.randrange(0, 5)))
+                    s += rng.choice(["", "$"]) + "".join(rng.choice("0123456789") for _ in range(rng.randrange(0, 9)))
+                    s += rng.choice(ALPH)
             off = (rng.choice([0, 1, -1, 5, 1048575, -1048575, 2 ** 32, -2 ** 32, 2 ** 63 - 1, -2 ** 63, rng.randrange(-50, 50)]),
-                   rng.choice([0, 1, -1, 3, 16383, -16383, 2 ** 32 - 1, 2 ** 63 - 1, rng.randrange(-50, 50)]))
-            lines.append("%s%d\tsharedfmla\trcn\t%s\t%d\t%d" % (tag, k, G.hx(s), off[0], off[1]))
+                   rng.choice([0, 1, -1, 3, 16383, -16383, 2 ** 32 - 1, 2 ** 63 - 1, -2 ** 63, rng.randrange(-50, 50)]))
+            lines.append("%s%d\tsharedfmla\trcn\t%s\t%d\t%d\t%s" % (tag, k, G.hx(s), off[0], off[1], ORACLE["arg"]))
         elif x < 0.7:
             lines.append("%s%d\tsharedfmla\tc2n\t%d\t%d" % (tag, k, rng.choice([0, 1, 9, 1048575, 2 ** 32 - 2, 2 ** 32 - 1, rng.randrange(2 ** 32)]),
                                                               rng.choice([0, 25, 26, 701, 702, 16383, 16384, 2 ** 32 - 1, rng.randrange(20000)])))
@@ -196,6 +285,8 @@ def run_raw_batch(ctx, n, tag):
         ctx.count("raw:" + l.split("\t")[2])
         if impl.get(lid) != model.get(lid):
             ctx.disagreements.append({"function": l.split("\t")[2], "case": l, "impl": impl.get(lid), "model": model.get(lid)})
+        elif l.split("\t")[2] == "rcn" and impl.get(lid) == "panic":
+            ctx.count("raw:rcn-panic(i64 overflow, offset beyond any sheet)")
 
 def sweep_columns(ctx):
     """finite domain: every column number 0..16400 through column_number_to_name / coordinate_to_name"""
@@ -215,14 +306,17 @@ def sweep_columns(ctx):
 
 # ----------------------------------------------------------------------------- end to end
 def gen_sheet(rng, kind="normal"):
-    """returns (cells for the writer / wire, groups, si_ok) — cells in document order"""
+    """returns (cells for the writer / wire, groups) — cells in document order.  Groups: column,
+    row, block or single-cell refs; the master is the top-left cell, any cell of the box, or
+    (kind "far") a cell outside the box; shared indices in arbitrary order (kind "si":
+    permuted / reversed / repeated)."""
     H = W = 14
     base = (rng.choice([0, 0, 1, 7, 500, 99990, G.MAX_ROWS - H]), rng.choice([0, 0, 1, 4, 20, 690, G.MAX_COLS - W]))
     occupied = {}
     groups = []
     ngroups = rng.choice([1, 1, 2, 2, 3, 4])
     for gi in range(ngroups):
-        shape = rng.choice(["col", "col", "col", "row", "row", "block", "single"] if kind != "block" else ["block"])
+        shape = rng.choice(["col", "col", "row", "row", "block", "block", "single"] if kind != "block" else ["block"])
         h = 1 if shape in ("row", "single") else rng.randrange(2, 7)
         w = 1 if shape in ("col", "single") else rng.randrange(2, 6)
         for _ in range(20):
@@ -232,27 +326,36 @@ def gen_sheet(rng, kind="normal"):
                 break
         else:
             continue
-        stream = rng.choice(STREAMS) if (kind == "normal" and rng.random() < 0.45) else None
-        fg = G.FormulaGen(rng, base=(base[0] + r0, base[1] + c0), span=5, stream=stream, mixed_ok=False)
+        x = rng.random()
+        if kind == "far" and x < 0.6:
+            free = [(r, c) for r in range(H) for c in range(W) if (r, c) not in occupied and (r, c) not in box]
+            mpos = rng.choice(free)
+        elif x < 0.75:
+            mpos = box[0]
+        else:
+            mpos = rng.choice(box)
+        stream = rng.choice(STREAMS) if (kind == "normal" and rng.random() < 0.3) else None
+        fg = G.FormulaGen(rng, base=(base[0] + mpos[0], base[1] + mpos[1]), span=5, stream=stream)
         ts = fg.formula()
-        if rng.random() < 0.85:
-            # keep every member's translation on the sheet: clamp the references
+        if rng.random() < 0.8:
+            # keep most members' translations on the sheet: pull the references away from the edges
             fixed = []
             for t in ts:
                 if t[0] == "R":
                     _, ca, c, ra, r = t
-                    c = min(c, G.MAX_COLS - w) if not ca else c
-                    r = min(r, G.MAX_ROWS - h) if not ra else r
+                    c = min(max(c, H), G.MAX_COLS - W - 1) if not ca else c
+                    r = min(max(r, W), G.MAX_ROWS - H - 1) if not ra else r
                     t = ("R", ca, c, ra, r)
                 fixed.append(t)
             ts = fixed
         g = {"shape": shape, "start": (base[0] + r0, base[1] + c0), "end": (base[0] + r0 + h - 1, base[1] + c0 + w - 1),
-             "tokens": ts, "members": [], "stream": stream}
-        for idx, p in enumerate(box):
+             "master": (base[0] + mpos[0], base[1] + mpos[1]), "tokens": ts, "members": [], "stream": stream}
+        occupied[mpos] = ("master", g)
+        for p in box:
             q = (base[0] + p[0], base[1] + p[1])
-            if idx == 0:
-                occupied[p] = ("master", g)
-            elif rng.random() < 0.1:
+            if p == mpos:
+                continue
+            if rng.random() < 0.1:
                 occupied[p] = ("plain", "1+" + G.a1(q[0], q[1])) if rng.random() < 0.5 else ("none",)
             else:
                 occupied[p] = ("member", g, "" if rng.random() < 0.9 else "OWN(" + G.a1(q[0], q[1]) + ")")
@@ -273,26 +376,21 @@ def gen_sheet(rng, kind="normal"):
             occupied[p] = ("stray", 40 + rng.randrange(3), "")
         elif groups:
             occupied[p] = ("outside", rng.choice(groups), "KEEP()")
-    # shared indices in document order of the masters
     order = sorted(occupied)
     masters = [occupied[p][1] for p in order if occupied[p][0] == "master"]
-    si_vals = []
-    cur = rng.choice([0, 0, 0, 1, 5])
-    for _ in masters:
-        si_vals.append(cur)
-        cur += rng.choice([1, 1, 1, 2, 4])
-    si_ok = True
+    # shared indices: arbitrary order in the document
+    pool = rng.sample(range(0, 12), len(masters)) if rng.random() < 0.7 else list(range(len(masters)))
     if kind == "si" and len(masters) >= 2:
         x = rng.random()
-        if x < 0.5:
-            i = rng.randrange(len(masters) - 1)
-            si_vals[i], si_vals[i + 1] = si_vals[i + 1], si_vals[i]
-        elif x < 0.8:
-            si_vals = list(reversed(si_vals))
+        if x < 0.4:
+            pool = sorted(pool, reverse=True)
+        elif x < 0.7:
+            pool[-1] = pool[0]          # a repeated index: the later master replaces the earlier group
         else:
-            si_vals[-1] = si_vals[0]
-        si_ok = all(a < b for a, b in zip(si_vals, si_vals[1:]))
-    for g, si in zip(masters, si_vals):
+            pool = [5, 0, 9, 3][:len(masters)]
+    if rng.random() < 0.03:
+        pool[0] = 10 ** 12              # a huge index costs nothing any more
+    for g, si in zip(masters, pool):
         g["si"] = si
     cells = []
     for p in order:
@@ -312,46 +410,59 @@ def gen_sheet(rng, kind="normal"):
             cells.append((q[0], q[1], ("plain", o[1])))
         else:
             cells.append((q[0], q[1], ("none",)))
-    return cells, [g for g in groups if "si" in g], si_ok
+    return cells, [g for g in groups if "si" in g]
 
-def expected_sheet(cells, groups):
-    """what the property demands: {(r,c): hex text}"""
+def walk_sheet(cells, groups):
+    """document-order walk: yields (r, c, kind, group or None) where group is the one the
+    property attaches a member to (latest master with that si seen so far, cell inside its ref)"""
     by_si = {}
-    exp = {}
     for (r, c, kind) in cells:
+        g = None
+        if kind[0] == "master":
+            by_si[kind[1]] = next(x for x in groups if x["si"] == kind[1] and x["master"] == (r, c))
+        elif kind[0] == "member":
+            x = by_si.get(kind[1])
+            if x is not None and x["start"][0] <= r <= x["end"][0] and x["start"][1] <= c <= x["end"][1]:
+                g = x
+        yield r, c, kind, g
+
+def expected_sheet(cells, groups, clip=False):
+    """what the property demands: {(r,c): hex text}; with clip=True references that would leave
+    the sheet stay unchanged (the documented behaviour outside the property's domain)"""
+    exp = {}
+    for r, c, kind, g in walk_sheet(cells, groups):
         k = kind[0]
         if k == "plain":
             exp[(r, c)] = G.hx(kind[1])
         elif k == "master":
             exp[(r, c)] = G.hx(kind[3])
-            by_si[kind[1]] = next(g for g in groups if g["si"] == kind[1] and g["start"] == (r, c))
         elif k == "member":
-            g = by_si.get(kind[1])
-            if g is not None and g["start"][0] <= r <= g["end"][0] and g["start"][1] <= c <= g["end"][1]:
-                dr, dc = r - g["start"][0], c - g["start"][1]
-                exp[(r, c)] = G.hx(G.render_all(G.translate(g["tokens"], dr, dc)))
+            if g is not None:
+                dr, dc = r - g["master"][0], c - g["master"][1]
+                tr = G.translate_clip if clip else G.translate
+                exp[(r, c)] = G.hx(G.render_all(tr(g["tokens"], dr, dc)))
             else:
                 exp[(r, c)] = G.hx(kind[2])
     return {p: v for p, v in exp.items() if v != ""}
 
-def run_sheet_batch(ctx, n, tag, kinds=("normal", "normal", "normal", "normal", "block", "si")):
+def run_sheet_batch(ctx, n, tag, kinds=("normal", "normal", "normal", "block", "si", "si", "far")):
     rng = ctx.rng
     d = tmpdir(ctx)
     name = "Sheet1"
     sheets, lines, toklines, tokmeta = [], [], [], {}
     for k in range(n):
         kind = rng.choice(kinds)
-        cells, groups, si_ok = gen_sheet(rng, kind)
+        cells, groups = gen_sheet(rng, kind)
         path = os.path.join(d, "%s%d.xlsx" % (tag, k))
         G.write_xlsx(path, name, cells, rng)
         lid = "%s%d" % (tag, k)
-        sheets.append((lid, cells, groups, si_ok, kind, path))
-        lines.append("%s\tsharedfmla\tsheet\t%s\t%s\t%s" % (lid, G.wire_cells(cells), path, G.hx(name)))
-        # hook-level classification of every (group, member offset) pair
-        for gi, g in enumerate(groups):
-            for (r, c) in g["members"]:
-                dr, dc = r - g["start"][0], c - g["start"][1]
-                tid = "%s.g%d.%d.%d" % (lid, gi, dr, dc)
+        sheets.append((lid, cells, groups, kind, path))
+        lines.append("%s\tsharedfmla\tsheet\t%s\t%s\t%s\t%s" % (lid, G.wire_cells(cells), path, G.hx(name), ORACLE["arg"]))
+        # hook-level classification of every (group, member offset) pair the property attaches
+        for r, c, knd, g in walk_sheet(cells, groups):
+            if g is not None:
+                dr, dc = r - g["master"][0], c - g["master"][1]
+                tid = "%s.%d.%d" % (lid, r, c)
                 toklines.append(tok_line(tid, g["tokens"], dr, dc))
                 tokmeta[tid] = (g["tokens"], dr, dc)
     impl, model = ctx.run_both(lines)
@@ -361,11 +472,17 @@ def run_sheet_batch(ctx, n, tag, kinds=("normal", "normal", "normal", "normal", 
         tid = l.split("\t", 1)[0]
         ts, dr, dc = tokmeta[tid]
         tokinfo[tid] = classify_tok(ctx, tid, l, ts, dr, dc, timpl.get(tid), tmodel.get(tid))
-    for (lid, cells, groups, si_ok, kind, path), line in zip(sheets, lines):
+    for (lid, cells, groups, kind, path), line in zip(sheets, lines):
         ctx.traces += 1
         ctx.count("sheet:" + kind)
         for g in groups:
             ctx.count("group:" + g["shape"])
+            ctx.count("master:" + ("top-left" if g["master"] == g["start"] else
+                                   "inside" if g["start"][0] <= g["master"][0] <= g["end"][0] and
+                                   g["start"][1] <= g["master"][1] <= g["end"][1] else "outside-ref"))
+        sis = [g["si"] for g in groups]
+        if sis != sorted(sis) or len(set(sis)) != len(sis):
+            ctx.count("sheet:si-not-increasing")
         a, m = impl.get(lid), model.get(lid)
         short = "%s\tsharedfmla\tsheet\t%s" % (lid, G.wire_cells(cells))
         if a != m:
@@ -375,7 +492,18 @@ def run_sheet_batch(ctx, n, tag, kinds=("normal", "normal", "normal", "normal", 
                 shutil.copy(path, keep)
             ctx.disagreements.append({"function": "next_formula/worksheet_formula", "case": line.replace(path, keep),
                                       "impl": a, "model": m})
+        # expectation: the property inside its domain; a member whose translation leaves the sheet
+        # keeps the clipped text (outside the domain, see classify_tok)
         exp = expected_sheet(cells, groups)
+        expc = expected_sheet(cells, groups, clip=True)
+        for tid, info in tokinfo.items():
+            if tid.startswith(lid + ".") and info and info["inr"] != "1":
+                _, r, c = tid.rsplit(".", 2)
+                p = (int(r), int(c))
+                if p in expc:
+                    exp[p] = expc[p]
+                else:
+                    exp.pop(p, None)
         exp_text = G.range_text(exp)
         if len(groups) >= 1 and any(g["members"] for g in groups):
             ctx.nontrivial(short)
@@ -385,41 +513,24 @@ def run_sheet_batch(ctx, n, tag, kinds=("normal", "normal", "normal", "normal", 
         # the sheet deviates from the property: attribute every deviating cell to a cause
         causes = set()
         got = G.parse_range_text(a)
-        member_of = {}
-        for gi, g in enumerate(groups):
-            for q in g["members"]:
-                member_of[q] = (gi, g)
-        if not si_ok:
-            causes.add("F22-si-order")
         if got is None:
-            # the whole call failed: some member's rewriting failed
-            for tid, info in tokinfo.items():
-                if tid.startswith(lid + ".") and info and info["impl"] in ("err", "panic") and info["cls"] not in (None, "violation"):
-                    causes.add(info["cls"])
-            if not causes:
-                causes.add("violation")
+            causes.add("violation")      # the whole call failed
         else:
             for p in set(exp) | set(got):
                 if exp.get(p) == got.get(p):
                     continue
-                if p in member_of:
-                    gi, g = member_of[p]
-                    dr, dc = p[0] - g["start"][0], p[1] - g["start"][1]
-                    info = tokinfo.get("%s.g%d.%d.%d" % (lid, gi, dr, dc))
-                    if g["shape"] == "block" and dc != 0:
-                        causes.add("F22-block")
-                    elif info and info["cls"] not in (None, "violation"):
-                        causes.add(info["cls"])
-                    elif not si_ok:
-                        pass
-                    else:
-                        causes.add("violation")
-                elif not si_ok:
-                    pass
+                info = tokinfo.get("%s.%d.%d" % (lid, p[0], p[1]))
+                if info and info["cls"] not in (None, "violation"):
+                    causes.add(info["cls"])
+                elif info and info["wf"] != "1":
+                    causes.add("outside-grammar")    # e.g. a defined name that is a cell name
                 else:
                     causes.add("violation")
         if not causes:
             causes.add("violation")     # same cells but another rectangle (or unparsable text)
+        if "outside-grammar" in causes:
+            ctx.count("sheet:master-outside-grammar")
+            causes.discard("outside-grammar")
         if "violation" in causes:
             keep = os.path.join(vlib.ROOT, "replays", "C15-%s.xlsx" % lid)
             os.makedirs(os.path.dirname(keep), exist_ok=True)
@@ -427,48 +538,56 @@ def run_sheet_batch(ctx, n, tag, kinds=("normal", "normal", "normal", "normal", 
                 shutil.copy(path, keep)
             ctx.violations.append({"case": line.replace(path, keep), "expected": exp_text, "actual": a, "model": m,
                                    "what": "worksheet_formula on a generated sheet with shared-formula groups %s"
-                                           % [(g["shape"], G.render_all(g["tokens"])) for g in groups]})
+                                           % [(g["shape"], g["si"], G.a1(*g["master"]), G.a1(*g["start"]) + ":" + G.a1(*g["end"]),
+                                               G.render_all(g["tokens"])) for g in groups]})
         for c in causes - {"violation"}:
             ctx.known_hits.setdefault(c, short)
             ctx.count("known-sheet:" + c)
     shutil.rmtree(d, ignore_errors=True)
 
 def run_fixed_sheets(ctx):
-    """hand-made sheets: the witnesses of the group-level classes and the plain cases"""
+    """hand-made sheets: column, row and block groups, shared indices in every order, a gap, a
+    repeated index, a master in the middle of its block, plain cells and strays"""
     A1 = ("R", 0, 0, 0, 0)
-    f = [A1, ("Y", "+"), ("M", "1", None, None)]
+    f = [("R", 1, 0, 0, 20), ("Y", "+"), ("R", 0, 5, 1, 0), ("Y", "*"), ("R", 0, 6, 0, 20), ("Y", "+"),
+         ("F", "LOG10"), ("R", 0, 7, 0, 21), ("Y", ")")]
     txt = G.render_all(f)
-    def grp(start, end, si):
+    def grp(start, end, si, master=None):
+        master = master or start
         return {"shape": "block" if start[0] != end[0] and start[1] != end[1] else "col" if start[0] != end[0] else "row",
-                "start": start, "end": end, "tokens": f, "si": si,
-                "members": [(r, c) for r in range(start[0], end[0] + 1) for c in range(start[1], end[1] + 1)][1:]}
+                "start": start, "end": end, "master": master, "tokens": f, "si": si,
+                "members": [(r, c) for r in range(start[0], end[0] + 1) for c in range(start[1], end[1] + 1)
+                            if (r, c) != master]}
     def cells_of(gs, extra=()):
         cells = []
         for g in gs:
-            cells.append((g["start"][0], g["start"][1], ("master", g["si"], G.a1(*g["start"]) + ":" + G.a1(*g["end"]), txt)))
+            cells.append((g["master"][0], g["master"][1], ("master", g["si"], G.a1(*g["start"]) + ":" + G.a1(*g["end"]), txt)))
             for (r, c) in g["members"]:
                 cells.append((r, c, ("member", g["si"], "")))
         cells += list(extra)
         return sorted(cells, key=lambda x: (x[0], x[1]))
     col = grp((1, 1), (4, 1), 0); row = grp((6, 1), (6, 5), 1); blk = grp((8, 1), (10, 3), 2)
     sheets = [
-        ("col+row", [col, row], True, ()),
-        ("block", [grp((1, 1), (3, 3), 0)], True, ()),
-        ("si-swapped", [grp((1, 1), (4, 1), 1), grp((6, 1), (6, 5), 0)], False, ()),
-        ("si-gap", [grp((1, 1), (4, 1), 3), grp((6, 1), (6, 5), 9)], True, ()),
-        ("all", [col, row, blk], True, ((0, 0, ("plain", "B2*2")), (0, 1, ("none",)), (12, 0, ("member", 7, "KEEP")))),
+        ("col+row", [col, row], ()),
+        ("block", [grp((1, 1), (3, 3), 0)], ()),
+        ("block-master-in-the-middle", [grp((1, 1), (3, 3), 0, master=(2, 2))], ()),
+        ("si-swapped", [grp((1, 1), (4, 1), 1), grp((6, 1), (6, 5), 0)], ()),
+        ("si-1-0-2", [grp((1, 1), (4, 1), 1), grp((6, 1), (6, 5), 0), grp((8, 1), (10, 3), 2)], ()),
+        ("si-gap", [grp((1, 1), (4, 1), 3), grp((6, 1), (6, 5), 9)], ()),
+        ("si-huge", [grp((1, 1), (4, 1), 10 ** 12), grp((6, 1), (6, 5), 0)], ()),
+        ("all", [col, row, blk], ((0, 0, ("plain", "B2*2")), (0, 1, ("none",)), (12, 0, ("member", 7, "KEEP")))),
     ]
     d = tmpdir(ctx)
     lines, meta = [], []
-    for k, (nm, gs, si_ok, extra) in enumerate(sheets):
+    for k, (nm, gs, extra) in enumerate(sheets):
         cells = cells_of(gs, extra)
         path = os.path.join(d, "fx%d.xlsx" % k)
         G.write_xlsx(path, "Sheet1", cells)
         lid = "fx%d" % k
-        lines.append("%s\tsharedfmla\tsheet\t%s\t%s\t%s" % (lid, G.wire_cells(cells), path, G.hx("Sheet1")))
-        meta.append((lid, nm, cells, gs, si_ok))
+        lines.append("%s\tsharedfmla\tsheet\t%s\t%s\t%s\t%s" % (lid, G.wire_cells(cells), path, G.hx("Sheet1"), ORACLE["arg"]))
+        meta.append((lid, nm, cells, gs))
     impl, model = ctx.run_both(lines)
-    for (lid, nm, cells, gs, si_ok), line in zip(meta, lines):
+    for (lid, nm, cells, gs), line in zip(meta, lines):
         ctx.traces += 1
         a, m = impl.get(lid), model.get(lid)
         short = "%s\tsharedfmla\tsheet\t%s" % (lid, G.wire_cells(cells))
@@ -476,36 +595,25 @@ def run_fixed_sheets(ctx):
             ctx.disagreements.append({"function": "next_formula/worksheet_formula", "case": line, "impl": a, "model": m})
         exp_text = G.range_text(expected_sheet(cells, gs))
         ctx.nontrivial(short)
-        if a == exp_text:
-            continue
-        if not si_ok:
-            ctx.known_hits.setdefault("F22-si-order", short)
-        elif any(g["shape"] == "block" for g in gs):
-            got = G.parse_range_text(a) or {}
-            exp = expected_sheet(cells, gs)
-            bad = [p for p in set(exp) | set(got) if exp.get(p) != got.get(p)]
-            blocks = [g for g in gs if g["shape"] == "block"]
-            if all(any(p in g["members"] and p[1] != g["start"][1] for g in blocks) for p in bad):
-                ctx.known_hits.setdefault("F22-block", short)
-            else:
-                ctx.violations.append({"case": line, "expected": exp_text, "actual": a, "model": m,
-                                       "what": "fixed sheet %s: a cell outside the non-first columns of a block group deviates" % nm})
-        else:
+        if a != exp_text:
             ctx.violations.append({"case": line, "expected": exp_text, "actual": a, "model": m,
                                    "what": "fixed sheet %s" % nm})
     shutil.rmtree(d, ignore_errors=True)
 
 # ----------------------------------------------------------------------------- entry points
 def run(ctx):
+    load_oracle(ctx)
     run_witnesses(ctx)
     run_fixed_sheets(ctx)
-    run_tok_batch(ctx, ctx.scale(30000, 500000), "t")
-    run_raw_batch(ctx, ctx.scale(10000, 150000), "r")
-    run_sheet_batch(ctx, ctx.scale(1500, 25000), "s")
+    run_tok_batch(ctx, ctx.scale(30000, 250000), "t")
+    run_raw_batch(ctx, ctx.scale(10000, 100000), "r")
+    run_sheet_batch(ctx, ctx.scale(1500, 12000), "s")
     if ctx.tier == "thorough":
         sweep_columns(ctx)
 
 def search(ctx):
+    if not ORACLE["arg"]:
+        load_oracle(ctx)
     run_tok_batch(ctx, ctx.scale(60000, 300000), "T")
     run_sheet_batch(ctx, ctx.scale(2000, 10000), "S")
     run_raw_batch(ctx, ctx.scale(20000, 100000), "Q")
